@@ -60,13 +60,18 @@ def correspondence(ctx):
     for D in (1, 2, 3):
         for N in range(3, Nmax[D] + 1):
             for (fp, fq) in ((2, 3), (1, 2), (3, 4), (1, 3)):
-                base = nf.ZeroNonlinearFun(D, N)
                 impl_cls = nf.PolynomialNonlinearFun(D, N, dealiasing_fraction=fp / fq, coefficients=[0.0, 1.0])
                 m = np.asarray(impl_cls.dealiasing_mask).astype(int).ravel()
-                # the model works with the exact rational the float represents for the documented fractions
+                # model: translated cutoff arithmetic in binary64 -> retained band K -> rational mask (K+1)/(N//2)
+                ep, eq = S.effective_fraction(N, fp / fq)
                 ctx.count(("mask", D, N % 12, fp, fq), True)
-                ctx.compare("dealiasing_mask vs Layout.dealiasMask", m, d.ask(f"dealias {D} {N} {fp} {fq}"), exact=True,
-                            cell=("mask", D, N, fp, fq))
+                ctx.compare("dealiasing_mask vs Layout.dealiasMask(translated float cutoff)", m, d.ask(f"dealias {D} {N} {ep} {eq}"),
+                            exact=True, cell=("mask", D, N, fp, fq))
+                # the float-evaluated band never exceeds the rational one the theorems are stated for (K_float <= K_rat)
+                k_float = ep - 1
+                k_rat = (fp * (N // 2) - fq) // fq
+                ctx.compare("float cutoff <= rational cutoff", [int(k_float <= k_rat and k_float >= k_rat - 1)], [1], exact=True,
+                            detail={"N": N, "frac": (fp, fq), "K_float": k_float, "K_rational": k_rat})
             ctx.bump(f"Nmod12={N % 12}")
     ctx.exhaustive = True
     # (ii) every nonlinear-function class vs the model pipeline, random real states with content up to Nyquist
@@ -80,7 +85,7 @@ def correspondence(ctx):
                 u = rng.normal(size=(C,) + (N,) * D)
                 uh = sp.fft(jnp.asarray(u))
                 out = np.asarray(fn(uh)).ravel()
-                fp, fq = S.frac_of(frac)
+                fp, fq = S.effective_fraction(N, frac)
                 uh_np = np.asarray(uh).reshape(C, -1)
                 model = d.ask_complex(f"nonlin {D} {N} {U.ftok(s)} {fp} {fq} {C} {spec} {U.cctoks(uh_np)}")
                 ctx.count(("term", name, D, N % 12), True)
@@ -169,7 +174,8 @@ def probe_term(kind, D, N, seed):
         tgt = tuple(idx_lead[i] for i in lead)
         want[(slice(None),) + lead + (slice(None),)] = rh[(slice(None),) + tgt + (slice(0, N // 2 + 1),)]
     want = want * (N / Nf) ** D * mask
-    sc = float(np.max(np.abs(want))) + 1e-12
+    # scale: the size of the quantities that are subtracted, not of the (possibly vanishing) result
+    sc = max(float(np.max(np.abs(want))), float(np.max(np.abs(uf))) ** 2 * (N ** D) * (2 * np.pi / L * (N // 2 + 1)) ** 2 * 1e-3, 1e-12)
     err = float(np.max(np.abs(got - want)))
     outside = float(np.max(np.abs(got * (~mask)))) if (~mask).any() else 0.0
     return {"ok": bool(err <= 1e-9 * sc and outside == 0.0), "err": err, "scale": sc, "outside_band": outside}
